@@ -23,7 +23,11 @@ func genMocks(c *cf.Case, r *cf.Rng, prop string) {
 		for p := 0; p < nparts; p++ {
 			off := int64(r.Pick(0, 5, -1000, -1000))
 			if r.Intn(5) != 0 {
-				c.Workload = append(c.Workload, cf.Op{Op: "expect-consume", Partition: int32(p), Offset: off})
+				op := cf.Op{Op: "expect-consume", Partition: int32(p), Offset: off}
+				if r.Intn(3) == 0 {
+					op.Ints = []int{r.Intn(2), r.Intn(2)} // messages / errors expected to be drained on close
+				}
+				c.Workload = append(c.Workload, op)
 			}
 		}
 		ny := r.Range(0, 20)
@@ -38,7 +42,11 @@ func genMocks(c *cf.Case, r *cf.Rng, prop string) {
 		for p := 0; p < nparts; p++ {
 			if r.Intn(6) != 0 {
 				off := int64(r.Pick(0, 5, 5, 7))
-				c.Workload = append(c.Workload, cf.Op{Op: "consume", Partition: int32(p), Offset: off, N: r.Intn(2)})
+				op := cf.Op{Op: "consume", Partition: int32(p), Offset: off, N: r.Intn(2)}
+				if r.Intn(3) == 0 {
+					op.Ints = []int{r.Pick(0, 1, 2), r.Pick(0, 0, 1)} // messages / errors left unread
+				}
+				c.Workload = append(c.Workload, op)
 			}
 		}
 		if r.Intn(4) == 0 {
